@@ -541,6 +541,8 @@ func inboundCase(rt *rapid.T, prop string, f inboundFlags) {
 	}
 	if !f.c04 {
 		delete(actions, "restart")
+	}
+	if !f.c04 && !f.c07 {
 		delete(actions, "markerFault")
 	}
 	rt.Repeat(actions)
